@@ -243,8 +243,11 @@ def make_rel(cfg_in):
             s2['n_jobs'] = _opt(c, 'nj', cfg['n_jobs'])
             s['n_jobs'] = s2['n_jobs']
         elif rel == 'index':
-            s2['L'] = dict(s['L'], index=[7, 7][:cfg['nl']] + list(range(100, 100 + max(0, cfg['nl'] - 2))))
-            s2['R'] = dict(s['R'], index=['b', 'a', 'a'][:cfg['nr']])
+            # relabelled index (with duplicate labels) and an unrelated extra column in both tables
+            s2['L'] = dict(s['L'], index=[7, 7][:cfg['nl']] + list(range(100, 100 + max(0, cfg['nl'] - 2))),
+                           columns=s['L']['columns'] + ['zz'], rows=[tuple(r) + ('L.zz%d' % i,) for i, r in enumerate(s['L']['rows'])])
+            s2['R'] = dict(s['R'], index=['b', 'a', 'a'][:cfg['nr']],
+                           columns=['zz'] + s['R']['columns'], rows=[('R.zz%d' % i,) + tuple(r) for i, r in enumerate(s['R']['rows'])])
         b = dict(bindings())
         if cfg['cpu_count']:
             import types
